@@ -11,7 +11,13 @@ Definition s_arg_types : str := [97; 114; 103; 95; 116; 121; 112; 101; 115]%N.
 Definition s_PRECEDENCES : str := [80; 82; 69; 67; 69; 68; 69; 78; 67; 69; 83]%N.
 Definition s_BINARY_OPERATORS : str := [66;73;78;65;82;89;95;79;80;69;82;65;84;79;82;83]%N.
 
+(* statements at module level run once, at import, before any call of the API and with no access to any caller's data: filling a table there
+   (T = {...}; T.update(...)) is initialisation, not state.  What matters is that no FUNCTION stores into such a table: [untouched] below. *)
+Definition s_module : str := [60; 109; 111; 100; 117; 108; 101; 62]%N.      (* "<module>" *)
+Definition at_import (e : effect) : bool := str_eqb (e_fn e) s_module.
+
 Definition allowed (e : effect) : bool :=
+  if at_import e then true else
   match e_kind e, e_root e with
   | KGlobal, _ => false
   | KDecor, _ => false                       (* e.g. functools.lru_cache: hidden state *)
@@ -38,12 +44,12 @@ Definition allowed_binding (b : binding) : bool :=
   || str_eqb (b_name b) s_arg_types
   || ((b_mod b =? 10)%nat && (str_eqb (b_name b) s_PRECEDENCES || str_eqb (b_name b) s_BINARY_OPERATORS)).
 
-(* A module- or class-level container that no store and no mutator call anywhere in the package mentions is a
+(* A module- or class-level container that no store and no mutator call inside any function of the package mentions is a
    constant table, whatever its name: nothing can flow through it. *)
 Fixpoint infix_of (p s : str) : bool :=
   prefix_of p s || match s with [] => false | _ :: s' => infix_of p s' end.
 Definition untouched (es : list effect) (b : binding) : bool :=
-  match b_name b with [] => false | _ => negb (existsb (fun e => infix_of (b_name b) (e_what e)) es) end.
+  match b_name b with [] => false | _ => negb (existsb (fun e => negb (at_import e) && infix_of (b_name b) (e_what e)) es) end.
 
 Definition pure_package (es : list effect) (bs : list binding) : bool :=
   forallb allowed es && forallb (fun b => allowed_binding b || untouched es b) bs.
